@@ -18,7 +18,13 @@ import I2N.Model.Tools
             of each step>`
       outcome <name> <raised 0/1> <allOk 0/1>  -- what the step returns to Manu.run: N | R | <int>
       manu0 <step,…>                       -- `Manu.run` with a command line that does not parse
-    C15 (update): see the `graph…`/`update` operations below. -/
+    C15 (update):
+      ureset                               -- empty remove-set graph
+      unode <name> <setless> <vm …> <worker> <compForm …> <objectRoot|-> <s|c|sc|-> <vm:state,…|-> <child …>
+                                           -- nodes in index order (children by index)
+      update <vm> <worker> <compForm …> <from> <to> <hasClean 0/1> <runName …> <skipName …>
+            answer: `err <Class>` | `skip` | `ok` TAB `run=<d|T|F per node>` TAB `clean=<d|T|F per node>`
+                    (run T: notFinishedOrRerun; clean T: cloneFree on a node that is no clone source) -/
 open I2N.Tools
 
 structure St where
@@ -28,7 +34,7 @@ structure St where
   pd : Dict := []
   oracle : List ((Nat × List String) × List PNode) := []
 
-  -- (C15 state is added below)
+  ug : UGraph := {}
 
 def St.parser (s : St) : Parser := fun w vms =>
   match s.oracle.find? (fun e => e.1.1 == w && e.1.2 == vms) with
@@ -110,6 +116,31 @@ def step (s : St) (line : String) : St × String :=
     | none => (s, "err AttributeError")
     | some t => (s, match stepOutcome t (raised == "1") (allOk == "1") with
                     | .raised => "R" | .retNone => "N" | .ret n => toString n)
+  | ["ureset"] => ({ s with ug := {} }, "ok")
+  | ["unode", name, setless, vms, worker, cfs, oroot, fl, sets, children] =>
+    let nd : UNode := { name := name, setless := setless, variants := name.splitOn ".", vms := words vms, worker := worker,
+                        compForms := words cfs,
+                        objectRoot := if oroot == "-" then [] else (oroot.splitOn "-").flatMap (·.splitOn "."),
+                        sharedRoot := fl.contains 's', cloned := fl.contains 'c',
+                        sets := (commas (if sets == "-" then "" else sets)).map (fun x =>
+                          match x.splitOn ":" with | [a, b] => (a, b) | _ => (x, "")),
+                        children := natList children }
+    ({ s with ug := { nodes := s.ug.nodes ++ [nd] } }, "ok")
+  | ["update", vm, worker, cfs, frm, to, hasClean, runNames, skipNames] =>
+    let u : UpdateIn := { vm := vm, worker := worker, compForms := words cfs, fromState := frm, toState := to,
+                          fromVars := frm.splitOn ".", toVars := to.splitOn ".",
+                          clean := if hasClean == "1" then some s.ug else none,
+                          runNames := words runNames, skipNames := words skipNames }
+    match updateFlags u with
+    | .error e => (s, "err " ++ e.name)
+    | .ok none => (s, "skip")
+    | .ok (some fl) =>
+      let idx := List.range s.ug.nodes.length
+      let r := String.join (idx.map (fun n => match fl.run n with
+        | .dflt => "d" | .notFinishedOrRerun => "T" | _ => "F"))
+      let c := String.join (idx.map (fun n => match fl.clean n with
+        | .dflt => "d" | _ => if willClean s.ug fl n then "T" else "F"))
+      (s, "ok\trun=" ++ r ++ "\tclean=" ++ c)
   | ["manu0", steps] =>
     (s, showChain (manuRun false (fun _ => true) (builtinStep (behOf [])) s.pd (commas steps)))
   | _ => (s, "bad-op")
